@@ -14,7 +14,8 @@ CASES = [
     ("C11", "TraceStorage.tla", r'("e":"SCommit".*)"res":"ok"=>\1"res":"cas"', "an engine commit result"),
     ("C12", "TraceAgree.tla", r'("e":"Resp".*"eng":"badger".*)"r":"=>\1"r":"x', "one transcript line of one engine"),
     ("C14", "TraceElection.tla", r'("e":"LUpdate".*)"ok":true=>\1"ok":false', "a lock update result"),
-    ("C16", "TraceEtcd.tla", r'"succ":true=>"succ":false', "a transaction answer"),
+    ("C16", "TraceEtcd.tla", r'"succ":true(?=.*"succ":\[\{"key":\d,"kind":"put"\}\])=>"succ":false',
+     "the answer to a successful put transaction"),
     ("C18", "TraceRoles.tla", r'("e":"Case".*"role":"follower".*)"writes":0=>\1"writes":1', "a follower that wrote"),
     ("C20", "TraceRequests.tla", r'"live":true=>"live":false', "a liveness probe"),
 ]
